@@ -1,4 +1,312 @@
+import PgsVerif.Proofs.Hydrate
 import PgsVerif.Model.AstNav
+import PgsVerif.Model.Valid
+/-!
+# C01 (building never fails) and C02 (lookup) — the index timeline of the AST builder
+
+`hydrate` transcribes ast.go with every `mustSeen` looked up against the index as it is at that
+moment.  `Valid` states, in terms of the declarations of the request, what protobuf's descriptor
+validation guarantees and the proof needs: distinct keys, dependencies on earlier files, every type
+reference naming a declaration of the right kind that is already declared when it is resolved.
+-/
 namespace Pgs.AST
-theorem placeholder_C01 : True := trivial
+
+theorem EntryRes.mono {a b : List Decl} {e : FieldD} (h : EntryRes a e) (hs : ∀ d ∈ a, d ∈ b) : EntryRes b e :=
+  ⟨h.noGroup, h.notRepeated, fun x => (h.enum x).mono hs, fun x => (h.msg x).mono hs⟩
+
+theorem FieldRes.mono {w : World} {a b : List Decl} {fd : FieldD} (h : FieldRes w a fd) (hs : ∀ d ∈ a, d ∈ b) :
+    FieldRes w b fd := by
+  refine ⟨h.noGroup, fun x => (h.enum x).mono hs, ?_⟩
+  intro h11
+  obtain ⟨d, hd, hk, hkind, hrep⟩ := h.msg h11
+  refine ⟨d, hs d hd, hk, hkind, ?_⟩
+  intro h3
+  obtain ⟨hh, n, hat, hmap⟩ := hrep h3
+  refine ⟨hh, n, hat, ?_⟩
+  intro hme
+  obtain ⟨k, v, rest, hf, hk', hv'⟩ := hmap hme
+  exact ⟨k, v, rest, hf, hk'.mono hs, hv'.mono hs⟩
+
+theorem AllFields.imp {P Q : FieldD → Prop} (h : ∀ fd, P fd → Q fd) : ∀ ms, AllFields P ms → AllFields Q ms := by
+  intro ms
+  induction ms with
+  | nil => intro _; trivial
+  | cons hd n r ih1 ih2 => intro ⟨a, b, c⟩; exact ⟨fun fd hfd => h fd (a fd hfd), ih1 b, ih2 c⟩
+
+/-- what descriptor validation guarantees, in terms of the request's declarations -/
+structure Valid (w : World) : Prop where
+  keysNodup : ((declared w).map (·.key)).Nodup
+  deps : ∀ pre f post, w.files = pre ++ f :: post → ∀ d ∈ f.deps, Resolves (declFrom 0 pre) d .file
+  methods : ∀ pre f post, w.files = pre ++ f :: post → ∀ sv ∈ f.services, ∀ m ∈ sv.methods,
+      Resolves (declFrom 0 pre ++ declFileHead pre.length f) m.input .msg ∧
+      Resolves (declFrom 0 pre ++ declFileHead pre.length f) m.output .msg
+  fields : ∀ pre f post, w.files = pre ++ f :: post → AllFields (FieldRes w (declFrom 0 (pre ++ [f]))) f.msgs
+  exts : ∀ x ∈ allExts 0 w.files, FieldRes w (declared w) x.2 ∧ Resolves (declared w) x.2.extendee .msg
+
+theorem nodup_reverse {α} {l : List α} (h : l.Nodup) : l.reverse.Nodup := by
+  unfold List.Nodup at *
+  rw [List.pairwise_reverse]
+  exact h.imp (fun hab => Ne.symm hab)
+
+theorem declFrom_append (n : Nat) (a b : List FileD) :
+    declFrom n (a ++ b) = declFrom n a ++ declFrom (n + a.length) b := by
+  induction a generalizing n with
+  | nil => simp [declFrom]
+  | cons f a ih =>
+    have e : n + 1 + a.length = n + (a.length + 1) := by omega
+    simp only [List.cons_append, declFrom, ih, List.append_assoc, List.length_cons, e]
+
+theorem resolveFiles_ok (s : Seen) (hs : (s.map (·.key)).Nodup) :
+    ∀ (ds : List String), (∀ d ∈ ds, Resolves s d .file) → ∃ rs, resolveFiles s ds = .ok rs := by
+  intro ds
+  induction ds with
+  | nil => intro _; exact ⟨[], rfl⟩
+  | cons d ds ih =>
+    intro h
+    obtain ⟨r, hr⟩ := mustSeen_of_resolves s hs d .file (h d (List.mem_cons_self ..))
+    obtain ⟨rs, hrs⟩ := ih (fun x hx => h x (List.mem_cons_of_mem _ hx))
+    exact ⟨r :: rs, by simp only [resolveFiles, hr, hrs]⟩
+
+theorem nodup_keys_suffix (W : Seen) (hW : (W.map (·.key)).Nodup) (later s : Seen) (h : W = later ++ s) :
+    (s.map (·.key)).Nodup := by
+  rw [h, List.map_append] at hW
+  exact (List.nodup_append.mp hW).2.1
+
+/-- the timeline invariant over the files of the request -/
+theorem hydrateFiles_ok (w : World) (hv : Valid w) :
+    ∀ (post pre : List FileD) (g : Graph), w.files = pre ++ post →
+      g.seen = (declFrom 0 pre).reverse →
+      ∃ g', hydrateFiles w g pre.length post = .ok g' ∧ g'.seen = (declared w).reverse := by
+  intro post
+  induction post with
+  | nil =>
+    intro pre g hw hs
+    refine ⟨g, rfl, ?_⟩
+    simp only [List.append_nil] at hw
+    rw [hs, declared, hw]
+  | cons f post ih =>
+    intro pre g hw hs
+    have hWnd : (((declared w).reverse).map (·.key)).Nodup := by
+      rw [List.map_reverse]; exact nodup_reverse hv.keysNodup
+    -- the declarations of the request, split at this file
+    have hdecl : declared w = declFrom 0 pre ++ (declFileHead pre.length f ++ declServices pre.length f)
+        ++ declFrom (pre.length + 1) post := by
+      unfold declared
+      rw [hw, declFrom_append]
+      simp [declFrom, declFile]
+    have hW : (declared w).reverse = (declFrom (pre.length + 1) post).reverse ++ (declServices pre.length f).reverse
+        ++ (declFileHead pre.length f).reverse ++ g.seen := by
+      rw [hdecl, hs]; simp
+    -- 1. dependencies, against the index that already holds this file
+    obtain ⟨fd0, hfd0⟩ : ∃ d : Decl, d = ⟨f.name, ⟨pre.length, []⟩, .file⟩ := ⟨_, rfl⟩
+    have hhead : declFileHead pre.length f = fd0 :: (declEnums pre.length (fileScope f) [] 5 f.enums
+        ++ declFields pre.length (fileScope f) [] 7 .ext f.exts ++ declMsgs pre.length (fileScope f) [] 4 0 f.msgs) := by
+      rw [hfd0]; rfl
+    have hs1nd : (((fd0 :: g.seen)).map (·.key)).Nodup := by
+      apply nodup_keys_suffix _ hWnd ((declFrom (pre.length + 1) post).reverse ++ (declServices pre.length f).reverse ++
+        (declEnums pre.length (fileScope f) [] 5 f.enums ++ declFields pre.length (fileScope f) [] 7 .ext f.exts
+          ++ declMsgs pre.length (fileScope f) [] 4 0 f.msgs).reverse)
+      rw [hW, hhead]; simp
+    obtain ⟨deps, hdeps⟩ := resolveFiles_ok (fd0 :: g.seen) hs1nd f.deps (by
+      intro d hd
+      refine (hv.deps pre f post hw d hd).mono ?_
+      intro x hx
+      exact List.mem_cons_of_mem _ (by rw [hs]; exact List.mem_reverse.mpr hx))
+    -- 2. services, on top of everything the file declares before them
+    have hbase : ∀ d ∈ declFrom 0 pre ++ declFileHead pre.length f, d ∈ (declFileHead pre.length f).reverse ++ g.seen := by
+      intro d hd
+      rcases List.mem_append.mp hd with h | h
+      · exact List.mem_append_right _ (by rw [hs]; exact List.mem_reverse.mpr h)
+      · exact List.mem_append_left _ (List.mem_reverse.mpr h)
+    obtain ⟨mio, hmio⟩ := hydrateServices_ok pre.length (fileScope f) (declared w).reverse hWnd f.services
+      ((declFileHead pre.length f).reverse ++ g.seen) 0 (declFrom 0 pre ++ declFileHead pre.length f) hbase
+      ⟨(declFrom (pre.length + 1) post).reverse, by rw [hW, ← declServices_eq]; simp⟩
+      (hv.methods pre f post hw)
+    -- 3. field types, after the whole file is declared
+    have hs3 : (declSvcsFrom pre.length (fileScope f) 0 f.services).reverse ++ ((declFileHead pre.length f).reverse ++ g.seen)
+        = (declFrom 0 (pre ++ [f])).reverse := by
+      rw [← declServices_eq, hs, declFrom_append]
+      simp [declFrom, declFile]
+    have hs3nd : (((declFrom 0 (pre ++ [f])).reverse).map (·.key)).Nodup := by
+      apply nodup_keys_suffix _ hWnd (declFrom (pre.length + 1) post).reverse
+      rw [hdecl, declFrom_append]
+      simp [declFrom, declFile]
+    obtain ⟨fts, hfts⟩ := msgFieldTypes_ok w (declFrom 0 (pre ++ [f])).reverse hs3nd pre.length f.msgs [] 4 0
+      (AllFields.imp (fun fd h => h.mono (fun d hd => List.mem_reverse.mpr hd)) _ (hv.fields pre f post hw))
+    -- assemble
+    have hstep : hydrateFile w g pre.length f = .ok
+        { g with seen := (declFrom 0 (pre ++ [f])).reverse, fileDeps := g.fileDeps ++ [(pre.length, deps)],
+                 ftypes := g.ftypes ++ fts, mio := g.mio ++ mio } := by
+      simp only [hydrateFile, ← hfd0, hdeps, hmio, hs3, hfts]
+    obtain ⟨g', hg', hseen⟩ := ih (pre ++ [f])
+      { g with seen := (declFrom 0 (pre ++ [f])).reverse, fileDeps := g.fileDeps ++ [(pre.length, deps)],
+               ftypes := g.ftypes ++ fts, mio := g.mio ++ mio } (by rw [hw]; simp) rfl
+    refine ⟨g', ?_, hseen⟩
+    simp only [hydrateFiles, hstep]
+    simpa using hg'
+
+/-- **C01 — building never fails on a valid request**, and the index then holds exactly the
+    declarations of the request. -/
+theorem C01_no_failure (w : World) (hv : Valid w) : ∃ g, hydrate w = .ok g ∧ g.seen = (declared w).reverse := by
+  obtain ⟨g, hg, hs⟩ := hydrateFiles_ok w hv w.files [] Graph.empty (by simp) (by simp [Graph.empty, declFrom])
+  have hnd : ((g.seen).map (·.key)).Nodup := by
+    rw [hs, List.map_reverse]; exact nodup_reverse hv.keysNodup
+  obtain ⟨⟨ts, ms⟩, hx⟩ := hydrateExts_ok w g.seen hnd (allExts 0 w.files) (by
+    intro x hx
+    obtain ⟨h1, h2⟩ := hv.exts x hx
+    have hsub : ∀ d ∈ declared w, d ∈ g.seen := fun d hd => by rw [hs]; exact List.mem_reverse.mpr hd
+    exact ⟨h1.mono hsub, h2.mono hsub⟩)
+  refine ⟨{ g with ftypes := g.ftypes ++ ts, extendees := ms }, ?_, hs⟩
+  simp only [hydrate] at hg ⊢
+  simp only [List.length_nil] at hg
+  simp [hg, hx]
+
+/-- **C02 — lookup**: looking up the key of a declared entity (a file: its path; otherwise its
+    fully-qualified name) returns that same entity, and names that no descriptor declares are
+    reported as not found. -/
+theorem C02_lookup (w : World) (hv : Valid w) (g : Graph) (hg : hydrate w = .ok g) :
+    (∀ d ∈ declared w, lookup g.seen d.key = some d) ∧
+    (∀ k, k ∉ (declared w).map (·.key) → lookup g.seen k = none) := by
+  obtain ⟨g', hg', hs⟩ := C01_no_failure w hv
+  rw [hg] at hg'
+  cases hg'
+  constructor
+  · intro d hd
+    apply lookup_of_mem
+    · rw [hs, List.map_reverse]; exact nodup_reverse hv.keysNodup
+    · rw [hs]; exact List.mem_reverse.mpr hd
+  · intro k hk
+    apply lookup_none
+    rw [hs, List.map_reverse]
+    simpa using hk
+
+/-- the navigation model never reports failure on a valid request -/
+theorem C01_nav_not_failed (w : World) (hv : Valid w) : (navModel w).failed = false := by
+  obtain ⟨g, hg, _⟩ := C01_no_failure w hv
+  simp [navModel, hg]
+
+end Pgs.AST
+
+/-! ### the hypothesis is decidable: `validB` (evaluated on every generated request) implies `Valid` -/
+namespace Pgs.AST
+
+theorem resolvesB_sound {ds k kind} (h : resolvesB ds k kind = true) : Resolves ds k kind := by
+  unfold resolvesB at h
+  obtain ⟨d, hd, hp⟩ := List.any_eq_true.mp h
+  simp only [Bool.and_eq_true, beq_iff_eq] at hp
+  exact ⟨d, hd, hp.1, hp.2⟩
+
+theorem entryResB_sound {ds e} (h : entryResB ds e = true) : EntryRes ds e := by
+  unfold entryResB at h
+  simp only [Bool.and_eq_true, Bool.or_eq_true, bne_iff_ne, ne_eq] at h
+  obtain ⟨⟨⟨h1, h2⟩, h3⟩, h4⟩ := h
+  refine ⟨h1, h2, ?_, ?_⟩
+  · intro h14; rcases h3 with h3 | h3
+    · exact absurd h14 h3
+    · exact resolvesB_sound h3
+  · intro h11; rcases h4 with h4 | h4
+    · exact absurd h11 h4
+    · exact resolvesB_sound h4
+
+theorem fieldResB_sound {w ds fd} (h : fieldResB w ds fd = true) : FieldRes w ds fd := by
+  unfold fieldResB at h
+  simp only [Bool.and_eq_true, Bool.or_eq_true, bne_iff_ne, ne_eq] at h
+  obtain ⟨⟨h1, h2⟩, h3⟩ := h
+  refine ⟨h1, ?_, ?_⟩
+  · intro h14; rcases h2 with h2 | h2
+    · exact absurd h14 h2
+    · exact resolvesB_sound h2
+  · intro h11
+    rcases h3 with h3 | h3
+    · exact absurd h11 h3
+    obtain ⟨d, hd, hp⟩ := List.any_eq_true.mp h3
+    simp only [Bool.and_eq_true, Bool.or_eq_true, beq_iff_eq, bne_iff_ne, ne_eq] at hp
+    obtain ⟨⟨hk, hkind⟩, hrep⟩ := hp
+    refine ⟨d, hd, hk, hkind, ?_⟩
+    intro hl
+    rcases hrep with hrep | hrep
+    · exact absurd hl hrep
+    unfold mapOKB at hrep
+    cases hat : w.msgAt d.ref with
+    | none => simp [hat] at hrep
+    | some hn =>
+      obtain ⟨hh, n⟩ := hn
+      refine ⟨hh, n, rfl, ?_⟩
+      intro hme
+      simp only [hat, hme, Bool.not_true, Bool.false_or] at hrep
+      cases hf : hh.fields with
+      | nil => simp [hf] at hrep
+      | cons k r =>
+        cases r with
+        | nil => simp [hf] at hrep
+        | cons v rest =>
+          simp only [hf, Bool.and_eq_true] at hrep
+          exact ⟨k, v, rest, rfl, entryResB_sound hrep.1, entryResB_sound hrep.2⟩
+
+theorem allFieldsB_sound {p : FieldD → Bool} {P : FieldD → Prop} (hp : ∀ fd, p fd = true → P fd) :
+    ∀ ms, allFieldsB p ms = true → AllFields P ms := by
+  intro ms
+  induction ms with
+  | nil => intro _; trivial
+  | cons h n r ih1 ih2 =>
+    intro hb
+    simp only [allFieldsB, Bool.and_eq_true, List.all_eq_true] at hb
+    exact ⟨fun fd hfd => hp fd (hb.1.1 fd hfd), ih1 hb.1.2, ih2 hb.2⟩
+
+theorem nodupB_sound : ∀ ks : List String, nodupB ks = true → ks.Nodup := by
+  intro ks
+  induction ks with
+  | nil => intro _; exact List.nodup_nil
+  | cons k ks ih =>
+    intro h
+    simp only [nodupB, Bool.and_eq_true, Bool.not_eq_true', List.contains_eq_mem, decide_eq_false_iff_not] at h
+    exact List.nodup_cons.mpr ⟨h.1, ih h.2⟩
+
+theorem filesOKB_sound (w : World) : ∀ (post0 pre0 : List FileD), filesOKB w pre0 post0 = true →
+    ∀ pre f post, post0 = pre ++ f :: post → fileOKB w (pre0 ++ pre) f = true := by
+  intro post0
+  induction post0 with
+  | nil => intro pre0 _ pre f post h; cases pre <;> simp at h
+  | cons g post0 ih =>
+    intro pre0 hb pre f post h
+    simp only [filesOKB, Bool.and_eq_true] at hb
+    cases pre with
+    | nil =>
+      simp only [List.nil_append, List.cons.injEq] at h
+      rw [List.append_nil, ← h.1]; exact hb.1
+    | cons g' pre =>
+      simp only [List.cons_append, List.cons.injEq] at h
+      have := ih (pre0 ++ [g]) hb.2 pre f post h.2
+      rw [← h.1]
+      simpa using this
+
+theorem validB_sound (w : World) (h : validB w = true) : Valid w := by
+  unfold validB at h
+  simp only [Bool.and_eq_true, List.all_eq_true] at h
+  obtain ⟨⟨hnd, hfiles⟩, hexts⟩ := h
+  have hfile : ∀ pre f post, w.files = pre ++ f :: post → fileOKB w pre f = true := by
+    intro pre f post hw
+    simpa using filesOKB_sound w w.files [] hfiles pre f post hw
+  refine ⟨nodupB_sound _ hnd, ?_, ?_, ?_, ?_⟩
+  · intro pre f post hw d hd
+    have := hfile pre f post hw
+    simp only [fileOKB, Bool.and_eq_true, List.all_eq_true] at this
+    exact resolvesB_sound (this.1.1 d hd)
+  · intro pre f post hw sv hsv m hm
+    have := hfile pre f post hw
+    simp only [fileOKB, Bool.and_eq_true, List.all_eq_true] at this
+    have := this.1.2 sv hsv m hm
+    exact ⟨resolvesB_sound this.1, resolvesB_sound this.2⟩
+  · intro pre f post hw
+    have := hfile pre f post hw
+    simp only [fileOKB, Bool.and_eq_true] at this
+    exact allFieldsB_sound (fun fd => fieldResB_sound) _ this.2
+  · intro x hx
+    have := hexts x hx
+    exact ⟨fieldResB_sound this.1, resolvesB_sound this.2⟩
+
+/-- C01 for every request that passes the decidable check the driver evaluates -/
+theorem C01_no_failure_dom (w : World) (h : validB w = true) : ∃ g, hydrate w = .ok g ∧ g.seen = (declared w).reverse :=
+  C01_no_failure w (validB_sound w h)
+
 end Pgs.AST
